@@ -553,10 +553,23 @@ Proof.
   intros Ha Hb. apply no_deps_no_reach. intros nd [<-|[<-|[]]]; assumption.
 Qed.
 
+Definition only_files (g : nodes) : Prop :=
+  forall t o, In (NTarget t) g -> In o (all_outputs t) -> o_type o = OFile.
+Definition never_above_root (g : nodes) : Prop :=
+  forall t o, In (NTarget t) g -> In o (all_outputs t) ->
+    resolve_from [] (split_slash (lpkg (t_label t)) ++ split_slash (o_id o)) <> None.
+
 Theorem reentrant_refuted :
-  exists rootc g, clean_root rootc /\ validate rootc g = Accept /\ ~ no_conflict rootc g.
+  exists rootc g, clean_root rootc /\ validate rootc g = Accept /\
+                  outputs_ok rootc g /\ only_files g /\ ~ no_conflict rootc g.
 Proof.
-  exists root, g_reentrant. split; [exact root_clean|]. split; [vm_compute; reflexivity|]. intro H.
+  exists root, g_reentrant. split; [exact root_clean|]. split; [vm_compute; reflexivity|].
+  split.
+  { intros t o [E|[E|[]]] Ho _; inversion E; subst; destruct Ho as [<-|[]]; (split; [reflexivity|]);
+      exists [lit "p1"; lit "a"]; vm_compute; reflexivity. }
+  split.
+  { intros t o [E|[E|[]]] Ho; inversion E; subst; destruct Ho as [<-|[]]; reflexivity. }
+  intro H.
   specialize (H (tgt "a" [mkOut OFile (lit "a")] "") (tgt "b" [mkOut OFile (lit "../../ws/p1/a")] "")
                 (mkOut OFile (lit "a")) (mkOut OFile (lit "../../ws/p1/a"))
                 (or_introl eq_refl) (or_intror (or_introl eq_refl))).
@@ -570,9 +583,17 @@ Proof.
 Qed.
 
 Theorem root_dir_refuted :
-  exists rootc g, clean_root rootc /\ validate rootc g = Accept /\ ~ no_conflict rootc g.
+  exists rootc g, clean_root rootc /\ validate rootc g = Accept /\
+                  outputs_ok rootc g /\ never_above_root g /\ ~ no_conflict rootc g.
 Proof.
-  exists root, g_root_dir. split; [exact root_clean|]. split; [vm_compute; reflexivity|]. intro H.
+  exists root, g_root_dir. split; [exact root_clean|]. split; [vm_compute; reflexivity|].
+  split.
+  { intros t o [E|[E|[]]] Ho _; inversion E; subst; destruct Ho as [<-|[]]; (split; [reflexivity|]).
+    - exists [lit "p1"; lit "a"]; vm_compute; reflexivity.
+    - exists []; vm_compute; reflexivity. }
+  split.
+  { intros t o [E|[E|[]]] Ho; inversion E; subst; destruct Ho as [<-|[]]; vm_compute; discriminate. }
+  intro H.
   specialize (H (tgt "a" [mkOut OFile (lit "a")] "") (tgt "b" [mkOut ODir (lit "..")] "")
                 (mkOut OFile (lit "a")) (mkOut ODir (lit ".."))
                 (or_introl eq_refl) (or_intror (or_introl eq_refl))).
